@@ -27,6 +27,7 @@ TRACE_INVS = {
     "C07": ["InvC07", "InvC01s", "InvC01x", "InvC02x", "InvC03x", "InvC04x"],
     "C10": ["InvC10"],
     "C12": ["InvC12s", "InvC12"],
+    "C13": ["InvC13", "InvStruct"],
     "C14": ["InvC14", "InvC04x"],
     "C18": ["InvC18", "InvCap"],
     "C19": ["InvC19"],
@@ -306,6 +307,41 @@ def check_C12(ctx):
     exec_scenarios(ctx, TRACE_INVS["C12"], KF1_PROGS, "thread-local system inside a batch")
 
 
+def check_C13(ctx):
+    # design: the fan-out order of the code, every presence subset, repeated setup, removes in between
+    lines = ["SPECIFICATION Spec", "CHECK_DEADLOCK FALSE", "CONSTANTS", "  Res = {1,2}", "  NSys = 7", "  Layout <- L_out",
+             "  TLs <- TL_out", "  BatchSys = 2", "  InnerLayout <- L_in", "  InnerTLs <- TL_in",
+             "  Rounds = %d" % (2 if ctx.quick() else 3), "  AccChoices = {{}, {1}, {2}}",
+             "INVARIANTS", "  InvC13setup", "  InvC13noclobber", "  InvC13nothingElse", "  InvC13dispose", "  InvOrderCoversPlan"]
+    res = tlc_mc(ctx, "MCLifecycle", "\n".join(lines) + "\n")
+    if res["violated"]:
+        raise ToolError("the Lifecycle MODEL violates %s" % res["violated"])
+    ctx.cov["states"] += res["distinct"]
+    ctx.cov["transitions"] += res["states"]
+    ctx.cov["model_runs"].append({"module": "MCLifecycle", "states_generated": res["states"], "distinct": res["distinct"],
+                                  "wall_s": res["wall_s"], "exhaustive": True})
+    # real dispatchers: batches nested 0..3 deep, thread-local systems (also inside batches), any subset of the
+    # resources pre-existing with distinctive values, setup repeated / a dispatch in between, then dispose
+    for (cnt, nmax, off) in ([(80, 20, 0), (10, 80, 1)] if ctx.quick() else [(800, 24, 0), (60, 120, 1)]):
+        out = ctx.fresh("lc", "ndjson")
+        st = run_bin(ctx, "exec", ["lifecycle", "--seed", ctx.seed * 1000 + off, "--count", cnt, "--nmax", nmax, "--out", out])
+        ctx.cov["impl_runs"].append({"kind": "impl->spec setup/dispose traces", "programs": st["programs"], "systems": st["systems"],
+                                     "events": st["events"], "max_batch_depth": st["max_batch_depth"]})
+        ctx.cov["traces_validated_against_impl"] += st["programs"]
+        for x in st["samples"][:1]:
+            ctx.sample({"kind": "program whose setup/dispose was recorded", "prog": x})
+        validate_blocks(ctx, "ShredTrace", out, ["InvC13", "InvStruct"], classify=classify_block)
+    # the library's own SystemData setup code (Read/Write/Option/Expect, tuples, derive): contributed stage
+    try:
+        import props_sysdata
+        if hasattr(props_sysdata, "c13_sysdata_stage"):
+            props_sysdata.c13_sysdata_stage(ctx)
+    except ModuleNotFoundError:
+        ctx.note("system-data half of C13 (static SystemData types) not available in this build")
+    ctx.assumptions.append("setup/dispose callbacks are observed through harness systems; controllers have no hook of their own, "
+                           "their declared data is observed through the world")
+
+
 def check_C14(ctx):
     exec_family(ctx, "C14", extra=["--ppanic", 0.6, "--modes", "disp,par,seq,disp"], mc=("flat", "tl"),
                 mc_thorough=("flat2", "batch", "deps"))
@@ -392,6 +428,7 @@ CHECKS = {
     "C05": check_C05,
     "C07": check_C07,
     "C12": check_C12,
+    "C13": check_C13,
     "C14": check_C14,
     "C18": check_C18,
     "C19": check_C19,
